@@ -466,6 +466,21 @@ class XT:
     def __matmul__(self, o):
         return t_matmul(self, o)
 
+    def m_max(self, dim=None, keepdim=False):
+        """Tensor.max(): global maximum (0-d tensor); Tensor.max(dim): (values, indices) - values only are modelled."""
+        import functools
+        if dim is None:
+            flat = list(self.a.reshape(-1))
+            if not flat:
+                raise I.PyExc('RuntimeError', 'max(): Expected reduction dim to be specified for input.numel() == 0')
+            return self._new(_obj(functools.reduce(el_max, flat)))
+        moved = np.moveaxis(self.a, dim, 0)
+        out = np.empty(moved.shape[1:], dtype=object)
+        for idx in np.ndindex(*out.shape):
+            out[idx] = functools.reduce(el_max, [moved[(k,) + idx] for k in range(moved.shape[0])])
+        vals = self._new(_ensure_arr(np.expand_dims(out, dim) if keepdim else out))
+        return (vals, None)
+
     def m_clone(self):
         return self._new(self.a.copy())
 
@@ -784,7 +799,7 @@ def t_repeat_interleave(x, repeats, dim=0):
 
 def t_max(a, b=None):
     if b is None:
-        raise Unsupported('torch.max reduction')
+        return a.m_max()
     f = np.frompyfunc(el_max, 2, 1)
     return a._new(_ensure_arr(f(a.a, as_array(b))), b if isinstance(b, XT) else None)
 
